@@ -49,6 +49,8 @@ def run(ctx):
             cov["race_detector"] = "unavailable: no C compiler, `go build -race` needs cgo"
         else:
             hr = ctx.build_harness("hC11", race=True)
+            # the detector's own report of the last racing case is kept next to the run (work/ is kept on failure)
+            os.environ["HC11_KEEP_STDERR"] = os.path.join(ctx.work, "race-detector-report.txt")
             if hr and m:
                 st = common.correspondence(ctx, hr, m, key_fn=key_fn,
                                            tier="race-quick" if ctx.quick() else "race-thorough", label="race")
